@@ -7,8 +7,11 @@
      (src/compiler/c.rs `hash_key`, src/compiler/rust.rs `generate_hash_key`):
      [fingerprint_of] maps a request to the record of hashed components.
        C/C++ : compiler digest, the common+arch arguments in command-line order,
-               the allow-listed environment variables IN THE ORDER OF THE
-               ENVIRONMENT (`CACHED_ENV_VARS`), the preprocessor output digest.
+               the allow-listed environment variables (`CACHED_ENV_VARS`) in
+               sorted order (generate_hash_key sorts the environment before it
+               calls hash_key, which hashes in the order given — `fix:` commit of
+               this property; before it the order of the client's environment
+               entered the key), the preprocessor output digest.
                NOT hashed: `-o`, dependency / preprocessor-only arguments (they
                act through the preprocessor output), every other variable, cwd.
        rustc : compiler (shlib digests + version), the arguments other than
@@ -39,7 +42,8 @@
 From Coq Require Import List NArith Bool.
 From Coq Require String.
 Import String.StringSyntax.
-From Sccache Require Import Base.Sx Model.Lru.
+From Sccache Require Import Base.Sx.
+From Sccache Require Import Model.Lru.
 Import ListNotations.
 Local Open Scope N_scope.
 Local Open Scope string_scope.
@@ -85,7 +89,8 @@ Record fingerprint := {
   fp_inputs : list N
 }.
 
-(* src/compiler/c.rs CACHED_ENV_VARS (Gen/C03Consts.v re-reads the list from the source) *)
+(* src/compiler/c.rs CACHED_ENV_VARS (lib/props/c03.py `translate` re-reads the list from the source on every
+   run and fails the obligation translate:CACHED_ENV_VARS when it differs) *)
 Definition c_env_allow : list bytes :=
   [ bs "SCCACHE_C_CUSTOM_CACHE_BUSTER"; bs "MACOSX_DEPLOYMENT_TARGET"; bs "IPHONEOS_DEPLOYMENT_TARGET";
     bs "TVOS_DEPLOYMENT_TARGET"; bs "WATCHOS_DEPLOYMENT_TARGET"; bs "SDKROOT"; bs "CCC_OVERRIDE_OPTIONS" ].
@@ -149,7 +154,7 @@ Definition fingerprint_of (r : request) : fingerprint :=
       {| fp_lang := LangC;
          fp_compiler := rq_compiler r;
          fp_args := hashed_args (rq_args r);
-         fp_env := filter (fun e => c_env_hashed (fst e)) (rq_env r);
+         fp_env := isort pair_leb (filter (fun e => c_env_hashed (fst e)) (rq_env r));
          fp_cwd := None;
          fp_inputs := rq_inputs r |}
   | LangRust =>
@@ -257,6 +262,16 @@ Definition put (s : Lru.st) (k : key) (sz : N) : Lru.st * bool :=
       (s3, match r3 with ROk => true | _ => false end)
   | _ => (s1, false)
   end.
+
+(* total size of the entry files on disk *)
+Fixpoint files_size (fs : list (key * (N * N))) : N :=
+  match fs with
+  | [] => 0
+  | (_, (sz, _)) :: r => sz + files_size r
+  end.
+
+Definition no_temp_names (fs : list (key * (N * N))) : bool :=
+  forallb (fun e => negb (is_temp (fst e))) fs.
 
 Section Model.
 
@@ -379,14 +394,21 @@ Fixpoint requests_of (h : list event) : list request :=
 Definition unrelated (r : request) (h : list event) : bool :=
   forallb (fun r' => negb (bytes_eqb (req_path r') (req_path r))) (requests_of h).
 
-End Model.
-
-(* total size of the entry files on disk *)
-Fixpoint files_size (fs : list (key * (N * N))) : N :=
-  match fs with
-  | [] => 0
-  | (_, (sz, _)) :: r => sz + files_size r
+(* "the stored entries stay within the capacity": every request of the history would fit beside what is
+   indexed, and at every restart the entry files fit and none carries the temp-file prefix.  Computable along
+   the run; does not mention any particular key. *)
+Definition event_fits (w : world) (e : event) : bool :=
+  match e with
+  | EReq r => measure (w_store w) + cr_size (compile r (w_compiles w)) <=? cap (w_store w)
+  | ERestart => (files_size (files (w_store w)) <=? cap (w_store w)) && no_temp_names (files (w_store w))
+  | _ => true
   end.
 
-Definition no_temp_names (fs : list (key * (N * N))) : bool :=
-  forallb (fun e => negb (is_temp (fst e))) fs.
+Fixpoint fits (w : world) (h : list event) : bool :=
+  match h with
+  | [] => true
+  | e :: t => event_fits w e && fits (fst (step_event w e)) t
+  end.
+
+End Model.
+
